@@ -36,6 +36,10 @@ CLAIMED = {
           "proof for all strings about the model; stack depth and time are runtime behaviour exercised up to depth 300/1000 (partial)", "C13"),
  "C14": C("Coq theorems (print then parse: same tree for proper trees, same function and variables for printable ones) + differential correspondence",
           "proof for all printable expression trees; tie by all trees up to a size bound over identifier-safe names", "C14"),
+ "C15": C("Coq theorems (every instruction keeps objects well-formed and denoting the specified function; closure over every program; only the documented panic; diagrams determined by function) + differential correspondence on random programs",
+          "proof for all finite programs over the instruction set (excluding the known-finding conversion D1 and the explicitly empty table); tie by random programs with full observation after every instruction", "C15"),
+ "C20": C("Coq theorems (independence of hash-container iteration order; operands never altered) + repeated-process differential runs (partial: process-level randomness is exercised, not proved)",
+          "proof that the model's results do not depend on the order of the hash containers the code builds and that registers are immutable; every call made twice per process and in several processes with fresh hash seeds must agree; source scan for interior mutability", "C20"),
  "C16": C("Coq theorems (import sound and complete w.r.t. 'the records describe a complete unambiguous table'; never panics; entry points agree) + differential correspondence",
           "proof for all record lists / texts relative to the csv splitter model; tie by all small tables x permutations x spellings, all single-fault mutations, random text, both entry points", "C16"),
  "C17": C("Coq theorems (export/import round trip for csv-safe names, all 16 formattings; line structure) + differential correspondence",
